@@ -111,7 +111,7 @@ def run_cc(ctx, name, corpus, only):
         for (n, k), a in zip(idx, ans2):
             lean[(n, k)] = a
 
-        parts = {k: {"n": 0, "dis": []} for k in ("k4", "k5", "k6a", "k6b", "k6c", "k6d", "k6e")}
+        parts = {k: {"n": 0, "dis": []} for k in ("k4", "k4acc", "k5", "k6a", "k6b", "k6c", "k6d", "k6e")}
 
         def dis(part, n, **kw):
             d = {"program": n, "source": src[n], "size": len(src[n])}
@@ -128,13 +128,24 @@ def run_cc(ctx, name, corpus, only):
             supported = "supported=true" in flags[n]
             buildable = "buildable=true" in flags[n]
             parts["k4"]["n"] += 1
+            # k4acc (C11, oracle = the supported grammar): a program the model accepts - by `compile_total`
+            # every body of the grammar without a misplaced fallthrough - must not crash the real compiler
+            accepted = p.startswith("ok ")
+            if accepted:
+                parts["k4acc"]["n"] += 1
             if r["status"] == "panic":
                 cls = panic_class(r["msg"])
                 if not p.startswith("err ") or p[4:] != cls:
                     dis("k4", n, model=p[:300], impl="panic: " + r["msg"][:300])
+                if accepted:
+                    dis("k4acc", n, reference="accepted: the body is inside the supported grammar (Lean: compile_total)",
+                        impl="compiler panic: " + r["msg"][:300])
                 continue
             if r["status"] != "ok":
                 dis("k4", n, model=p[:300], impl="no output: " + r.get("msg", "")[:300])
+                if accepted:
+                    dis("k4acc", n, reference="accepted: the body is inside the supported grammar (Lean: compile_total)",
+                        impl="no output: " + r.get("msg", "")[:300])
                 continue
             if canon(p) != canon("ok " + r["tmp"]):
                 dis("k4", n, model=p, impl="ok " + r["tmp"])
